@@ -504,7 +504,7 @@ pub fn main(args: &Args) {
     let out = args.get("out").expect("--out");
     let seed = args.seed();
     let only = args.get("scenario").map(|s| s.parse::<u64>().unwrap());
-    let n: u64 = if args.thorough() { 800 } else { 64 };
+    let n: u64 = if args.thorough() { 1500 } else { 160 };
     humphrey::verif::set_failpoint_handler(fp_handler);
     let reports = par(if only.is_some() { 1 } else { 8 }, move |shard, nsh| {
         let mut r = Report::new();
